@@ -1575,7 +1575,9 @@ impl Server {
             "QUIT" => Ok(RespFrame::ok()),
             "EVAL" => {
                 use crate::storage::commands::lua::handle_eval_with_db;
-                match handle_eval_with_db(&self.storage, parts, db) {
+                let result = handle_eval_with_db(&self.storage, parts, db);
+                self.notify_keys_after_script(parts, db);
+                match result {
                     Ok(resp) => Ok(resp),
                     Err(e) => {
                         eprintln!("[SERVER ERROR] Lua EVAL error: {}", e);
@@ -1585,7 +1587,9 @@ impl Server {
             },
             "EVALSHA" => {
                 // EVALSHA needs script cache access
-                self.handle_evalsha_command(parts, db)
+                let result = self.handle_evalsha_command(parts, db);
+                self.notify_keys_after_script(parts, db);
+                result
             },
             "COMMAND" => {
                 // Redis introspection command for client compatibility
@@ -3402,6 +3406,30 @@ impl Server {
         
         // Execute as EVAL, in the database the connection has selected
         crate::storage::commands::lua::handle_eval_with_db(&self.storage, &eval_parts, db)
+    }
+    
+    /// redis.call("LPUSH"/"RPUSH", ..) inside a script goes to the storage engine directly and
+    /// notifies nobody.  After the script, wake the clients blocked on the keys it declared,
+    /// one per element the list holds (a wake-up that finds nothing registers its client again)
+    fn notify_keys_after_script(&self, parts: &[RespFrame], db: usize) {
+        let numkeys = match parts.get(2) {
+            Some(RespFrame::BulkString(Some(bytes))) => String::from_utf8_lossy(bytes).parse::<usize>().unwrap_or(0),
+            _ => 0,
+        };
+        for frame in parts.iter().skip(3).take(numkeys) {
+            if let RespFrame::BulkString(Some(key)) = frame {
+                if !self.blocking_manager.has_blocked_clients(db, key) {
+                    continue;
+                }
+                let elements = self.storage.llen(db, key).unwrap_or(0);
+                for _ in 0..elements {
+                    if !self.blocking_manager.has_blocked_clients(db, key) {
+                        break;
+                    }
+                    self.blocking_manager.notify_key_ready(db, key);
+                }
+            }
+        }
     }
     
     /// Handle SCRIPT command with global script cache
